@@ -9,6 +9,8 @@ NOTE = ("Trusted base: go/types, go/ssa, the VTA/CHA call graph (x/tools v0.29.0
         "it does not execute parsley code.")
 
 CLAIMED = {
+ "C04": dict(ref="§4 C04", technique="path-sensitive nilness abstract interpretation ({nil, non-nil, unknown} over enumerated CFG paths with phi resolution and branch pruning) at the API boundary and in every leaf/filter combinator; dominance checks for End/Evaluate",
+   text="Static nilness analysis deciding, for every grammar and input, that parsley.Parse returns exactly one of a non-nil node or a non-nil error on every path, that Evaluate only evaluates behind success, that every leaf parser returns a node xor an error, that End requires IsEOF and Sentence is SeqOf(p, End()), and that no alternation/filter combinator returns a node together with a stale error. Completeness ('succeeds precisely when some parse consumes the whole input') is not decided."),
  "C12": dict(ref="§4 C12", technique="type-level parametricity: translation-coefficient inference (linear constraints over all integer SSA values, fields, parameters and interface method slots; union-find + propagation)",
    text="Static inference of how every integer of the library moves with the file's base offset; consistency of the constraint system is a parametricity proof sketch that parsing is invariant under placement (same control flow and trees, positions shifted by the offset difference, line:column unchanged), for all inputs and placements. Also decides that no placement-dependent value leaks into text or is cached outside File/FileSet/results. Does not decide C11's line/column arithmetic."),
  "C01": dict(ref="§4 C01", technique="ownership dataflow on alternative lists + forward value flow of curtailing sets (field-based) + guard dominance on context resets + shape/operand analysis of ResultCache.Get",
